@@ -17,3 +17,33 @@ func layoutSafe(t types.Type) (ls []*Sort) {
 	}()
 	return layout(t)
 }
+
+// abstractRem: in units with the `abstractrem` clause the remainder operator is an
+// uninterpreted function (only what `uses` lemmas state about it is known). This keeps 64-bit
+// division circuits out of queries that reason about ring-buffer indices.
+var abstractRem bool
+
+func abstractRemTerm(a, b *Term, signed bool) *Term {
+	name := "$urem"
+	if signed {
+		name = "$srem"
+	}
+	u := DeclUF(name+a.Sort.String(), a.Sort, a.Sort, b.Sort)
+	return App(u, a, b)
+}
+
+func hasQuantifier(t *Term, seen map[*Term]bool) bool {
+	if seen[t] {
+		return false
+	}
+	seen[t] = true
+	if t.Op == "forall" || t.Op == "exists" {
+		return true
+	}
+	for _, a := range t.Args {
+		if hasQuantifier(a, seen) {
+			return true
+		}
+	}
+	return false
+}
